@@ -208,7 +208,7 @@ func lockRules(c *Ctx, r *Report, eng *effEngine, prop string, sums map[*ssa.Fun
 			// double acquisition of the same mutex
 			if held := st.heldAt[ls.call.(ssa.Instruction)]; held != nil {
 				if _, again := held[id]; again {
-					r.check(prop+".ORDER", fmt.Sprintf("%s: %s is not re-acquired while held", fnName(f), ls.ref.class), ls.call.Pos(), false, "sync.Mutex is not reentrant: self-deadlock")
+					r.flag(prop+".ORDER", fmt.Sprintf("%s: %s is not re-acquired while held", fnName(f), ls.ref.class), ls.call.Pos(), "sync.Mutex is not reentrant: self-deadlock")
 				}
 			}
 		}
@@ -232,7 +232,7 @@ func lockRules(c *Ctx, r *Report, eng *effEngine, prop string, sums map[*ssa.Fun
 	for _, k := range sortedKeys(edges) {
 		e := edges[k]
 		if e.from == e.to {
-			r.check(prop+".ORDER", fmt.Sprintf("lock order: %s acquired while %s is held", e.to, e.from), e.pos, false, "a mutex of the same class is acquired while one is held: two goroutines taking two objects in opposite orders deadlock")
+			r.flag(prop+".ORDER", fmt.Sprintf("lock order: %s acquired while %s is held", e.to, e.from), e.pos, "a mutex of the same class is acquired while one is held: two goroutines taking two objects in opposite orders deadlock")
 			continue
 		}
 		// cycle through this edge?
